@@ -8,6 +8,7 @@ from __future__ import annotations
 
 import io
 import contextlib
+import itertools
 import json
 import math
 import os
@@ -146,7 +147,7 @@ def _to_numeric(x, env):
     return x
 
 
-def _diff(got, exp, path="result"):
+def _diff(got, exp, path="result", tol=TOL):
     """list of (path, detail) where the native value differs from the numeric spec value"""
     out = []
     if exp is None:
@@ -157,7 +158,7 @@ def _diff(got, exp, path="result"):
             if g is None and v is not None and not (isinstance(got, dict) and k in got) and not hasattr(got, k):
                 out.append((f"{path}.{k}", "missing"))
             else:
-                out += _diff(g, v, f"{path}.{k}")
+                out += _diff(g, v, f"{path}.{k}", tol)
         return out
     if isinstance(exp, list):
         if isinstance(got, slice):
@@ -165,7 +166,7 @@ def _diff(got, exp, path="result"):
         if not isinstance(got, (list, tuple)) or len(got) != len(exp):
             return [(path, f"sequence mismatch: {got!r:.80} vs {exp!r:.80}")]
         for j, (g, v) in enumerate(zip(got, exp)):
-            out += _diff(g, v, f"{path}[{j}]")
+            out += _diff(g, v, f"{path}[{j}]", tol)
         return out
     if isinstance(exp, np.ndarray):
         try:
@@ -179,7 +180,7 @@ def _diff(got, exp, path="result"):
         else:
             with np.errstate(invalid="ignore"):
                 err = np.abs(g - exp)
-                bad = np.argwhere(~(err <= TOL * (1 + np.abs(exp))) & ~np.isnan(exp))
+                bad = np.argwhere(~(err <= tol * (1 + np.abs(exp))) & ~np.isnan(exp))
         if len(bad):
             i = tuple(int(v) for v in bad[0])
             return [(path, f"{len(bad)} element(s) differ, e.g. at {i}: native {g[i]!r} vs spec {exp[i]!r}")]
@@ -189,7 +190,7 @@ def _diff(got, exp, path="result"):
             gv = float(np.asarray(got))
         except Exception:
             return [(path, f"not a number: {got!r:.60}")]
-        if not abs(gv - float(exp)) <= TOL * (1 + abs(float(exp))):
+        if not abs(gv - float(exp)) <= tol * (1 + abs(float(exp))):
             return [(path, f"native {gv!r} vs spec {float(exp)!r}")]
         return out
     if isinstance(exp, (str, bool)):
@@ -199,11 +200,61 @@ def _diff(got, exp, path="result"):
     return out
 
 
+SEED = [0]
+IN_REAL_CALL = [False]
+
+
+def draw_native(key, shape, dist, seed=None):
+    """the numeric value the spec evaluator gives to the abstract draw RND_<dist>[key](idx), as a numpy array"""
+    shape = (shape,) if isinstance(shape, (int, np.integer)) else tuple(int(s) for s in shape)
+    nm = f"RND_{dist}[{key.tag}]/{len(shape)}"
+    env = numeval.NumEnv(None, SEED[0] if seed is None else seed)
+    out = np.empty(shape, dtype=float)
+    for idx in itertools.product(*[range(s) for s in shape]):
+        out[idx] = env.array_value(nm, idx)
+    return out
+
+
+@contextlib.contextmanager
+def native_random():
+    """jax.random.split / uniform / normal are replaced, for the duration of a native run, by deterministic stand-ins
+    that take the abstract keys of the harness and return exactly the draws the numeric spec evaluator assumes for
+    them -- so the real generator code and the spec see the same 'random' numbers.  (What is exercised natively is
+    exponax's use of the draws, not jax's generators.)"""
+    import jax.numpy as jnp
+    import jax.random as jr
+    saved = (jr.split, jr.uniform, jr.normal)
+
+    def split(key, num=2):
+        if not isinstance(key, ops.Key):
+            return saved[0](key, num)
+        return ops.KeyArray(key, int(num))
+
+    def uniform(key, shape=(), dtype=None, minval=0.0, maxval=1.0):
+        if not isinstance(key, ops.Key):
+            return saved[1](key, shape, minval=minval, maxval=maxval)
+        return minval + (maxval - minval) * jnp.asarray(draw_native(key, shape, "U"))
+
+    def normal(key, shape=(), dtype=None):
+        if not isinstance(key, ops.Key):
+            return saved[2](key, shape)
+        return jnp.asarray(draw_native(key, shape, "N"))
+    jr.split, jr.uniform, jr.normal = split, uniform, normal
+    IN_REAL_CALL[0] = True
+    try:
+        yield
+    finally:
+        IN_REAL_CALL[0] = False
+        jr.split, jr.uniform, jr.normal = saved
+
+
 def run_native(c, case, concrete, seed=0):
     """returns dict(confirmed: bool, detail: ..., inputs: ...) or raises"""
+    SEED[0] = seed
     eng = ConcreteEngine(f"replay:{c.qualname}[{case.label}]", concrete)
     prev, engine.CURRENT = engine.CURRENT, eng
     sym.CONCRETE_ABSTRACT[0] = True
+    smt.NATIVE_REPLAY[0] = True
     try:
         try:
             built = case.build(eng)
@@ -214,6 +265,8 @@ def run_native(c, case, concrete, seed=0):
             args, kwargs, ctx = built
         else:
             args, kwargs = built if isinstance(built, tuple) and len(built) == 2 and isinstance(built[1], dict) else (built, {})
+        if ctx.get("no_native"):
+            return {"skipped": f"not runnable natively: {ctx['no_native']}"}
         if c.invoke is not None:
             try:
                 bargs, bkw = c.bind((None,) + tuple(args), kwargs)
@@ -234,7 +287,7 @@ def run_native(c, case, concrete, seed=0):
         # ---- the real function on the real jax
         exc, res = None, None
         try:
-            with contextlib.redirect_stdout(io.StringIO()):
+            with contextlib.redirect_stdout(io.StringIO()), native_random():
                 res = (c.invoke or c.orig)(*nargs, **nkw)
                 if "apply" in ctx and callable(res):
                     res = res(*_to_native(tuple(ctx["apply"]), env))
@@ -263,12 +316,13 @@ def run_native(c, case, concrete, seed=0):
             if "apply" in ctx and callable(exp):
                 exp = exp(*ctx["apply"])
         env2 = numeval.NumEnv(ops.interner(eng), seed)
-        d = _diff(res, _to_numeric(exp, env2))
+        d = _diff(res, _to_numeric(exp, env2), tol=ctx.get("native_tol", TOL))
         info.update(confirmed=bool(d), detail="; ".join(f"{p}: {m}" for p, m in d[:4]) if d else "native result equals the spec")
         return info
     finally:
         engine.CURRENT = prev
         sym.CONCRETE_ABSTRACT[0] = False
+        smt.NATIVE_REPLAY[0] = False
 
 
 def replay_obligation(ob, seed=0, max_battery=16):
